@@ -46,15 +46,28 @@ Theorem C09_none_cases_documented : forall sh fs,
 Proof. exact Proofs.documented_none_when_opted_out. Qed.
 Print Assumptions C09_none_cases_documented.
 
-(* ... and whole enums: an ignored variant has no source, every other variant returns what the
-   documented rules select for its own fields *)
-Theorem C09_enum_variant : forall vs arms k v,
-  render_enum vs = Ok arms -> nth_error vs k = Some v ->
-  (v_ignore v = true -> enum_source_returns arms k = None) /\
+(* ... and whole enums: the emitted `match self` is exhaustive (the `_ => None` arm is decided against
+   ALL variants, ignored ones included, so the derive compiles), an ignored variant has no source,
+   every other variant returns what the documented rules select for its own fields *)
+Theorem C09_enum_match_exhaustive : forall vs f,
+  render_enum_source vs = Ok f -> match_exhaustive f (length vs) = true.
+Proof. exact Proofs.enum_exhaustive. Qed.
+Print Assumptions C09_enum_match_exhaustive.
+
+Theorem C09_enum_variant : forall vs f k v,
+  render_enum_source vs = Ok f -> nth_error vs k = Some v ->
+  (v_ignore v = true -> enum_fn_returns f k = None) /\
   (v_ignore v = false ->
-   Sel (enum_source_returns arms k) = documented_source (v_shape v) (v_fields v)).
-Proof. exact Proofs.enum_variant_documented. Qed.
+   Sel (enum_fn_returns f k) = documented_source (v_shape v) (v_fields v)).
+Proof. exact Proofs.enum_source_documented. Qed.
 Print Assumptions C09_enum_variant.
+
+(* the wildcard arm is present exactly when some variant (ignored or source-less) has no arm *)
+Theorem C09_enum_wildcard : forall vs arms w,
+  render_enum_source vs = Ok (MatchSelf arms w) ->
+  (w = true <-> exists k, k < length vs /\ covers arms k = false).
+Proof. exact Proofs.enum_wildcard_iff. Qed.
+Print Assumptions C09_enum_wildcard.
 
 (* the `Debug + Display + Error + 'static` bound is on the type of the returned field exactly when
    that type mentions a type parameter *)
